@@ -59,7 +59,7 @@ pub fn gen_dict_program(t: &mut Tape) -> DictProgram {
     for a in 0..narr {
         // key family: the plain pool; keys that collide under truncation,
         // case folding or trimming; or a big dictionary
-        let family = t.weighted(&[6, 2, 1, 1, 1]);
+        let family = t.weighted(&[5, 3, 1, 3, 1]);
         let mut keys: Vec<String> = Vec::new();
         let mut unstored_spelling: Option<&str> = None;
         match family {
@@ -76,7 +76,19 @@ pub fn gen_dict_program(t: &mut Tape) -> DictProgram {
                 features.push("near-identical keys");
                 // every other time two of the three spellings of one word
                 // are stored and the third is read (see below)
-                if t.chance(1, 2) {
+                let cluster = t.draw(3);
+                if cluster == 1 {
+                    // two or three of the long keys that agree on a long prefix
+                    let n = 2 + t.draw(2) as usize;
+                    let from = t.draw(5) as usize;
+                    for i in 0..n {
+                        let k = NEAR_KEYS[(from + i) % 5].to_string();
+                        if !keys.contains(&k) {
+                            keys.push(k);
+                        }
+                    }
+                }
+                if cluster == 0 {
                     let third = t.draw(3) as usize;
                     let spellings = ["\"Key\"", "\"key\"", "\"KEY\""];
                     for (i, k) in spellings.iter().enumerate() {
